@@ -365,7 +365,9 @@ theorem pemRawPass_badPass (i : PemIn) (h : pemRawPass i = .badPass) :
               have hns : dsaDer i ≠ .structural := by
                 unfold dsaDer
                 cases i.der with
-                | ok k p => by_cases hr : i.dsaRest = true <;> by_cases hc : dsaConsistent i = true <;> simp [hr, hc]
+                | ok k p =>
+                  by_cases hr : i.dsaRest = true <;> by_cases hg : dsaGroup i = true <;>
+                    by_cases hc : dsaConsistent i = true <;> simp [hr, hg, hc]
                 | structural => simp
                 | err => simp
               cases hd : dsaDer i with
@@ -391,19 +393,31 @@ theorem dsa_inconsistent_refused (i : PemIn) (h : dsaConsistent i = false) : ∀
   unfold dsaDer
   cases i.der <;> simp [h]
 
-/-- … and an accepted one satisfies 0 < P, 0 < X < Q and Pub = Exp(G, X, P) -/
+/-- (f1d7a77) parameters that are not a DSA group — Q not a prime dividing P−1, or G not of order Q — are
+    refused -/
+theorem dsa_bad_group_refused (i : PemIn) (h : dsaGroup i = false) : ∀ k p, dsaDer i ≠ .ok k p := by
+  intro k p
+  unfold dsaDer
+  cases i.der <;> simp [h]
+
+/-- … and an accepted DSA key has group parameters (0 < P, Q prime by the stdlib test, Q | P−1, 1 < G < P,
+    G^Q = 1) and satisfies 0 < X < Q and Pub = Exp(G, X, P) -/
 theorem dsa_accepted_consistent (i : PemIn) (k p : Bytes) (h : dsaDer i = .ok k p) :
-    0 < i.dsaP ∧ 0 < i.dsaX ∧ i.dsaX < i.dsaQ ∧ i.dsaExp = i.dsaY := by
+    (0 < i.dsaP ∧ 0 < i.dsaQ ∧ i.dsaQPrime = true ∧ (i.dsaP - 1) % i.dsaQ = 0 ∧ 1 < i.dsaG ∧ i.dsaG < i.dsaP ∧ i.dsaGQ = 1) ∧
+    (0 < i.dsaX ∧ i.dsaX < i.dsaQ ∧ i.dsaExp = i.dsaY) := by
   unfold dsaDer at h
   cases hd : i.der with
   | ok k' p' =>
     rw [hd] at h
     by_cases hr : i.dsaRest = true
     · simp [hr] at h
-    · by_cases hc : dsaConsistent i = true
-      · have := by simpa [dsaConsistent] using hc
-        exact ⟨this.1.1.1, this.1.1.2, this.1.2, this.2⟩
-      · simp [hr, hc] at h
+    · by_cases hg : dsaGroup i = true
+      · by_cases hc : dsaConsistent i = true
+        · have a := by simpa [dsaGroup] using hg
+          have b := by simpa [dsaConsistent] using hc
+          exact ⟨⟨a.1.1.1.1.1.1, a.1.1.1.1.1.2, a.1.1.1.1.2, a.1.1.1.2, a.1.1.2, a.1.2, a.2⟩, b.1.1.2, b.1.2, b.2⟩
+        · simp [hr, hg, hc] at h
+      · simp [hr, hg] at h
   | structural => rw [hd] at h; simp at h
   | err => rw [hd] at h; simp at h
 
@@ -411,12 +425,14 @@ theorem dsa_accepted_consistent (i : PemIn) (k p : Bytes) (h : dsaDer i = .ok k 
 theorem signerOf_refuses (p : Bytes) : signerOf (.ok (nm "ecdsa224") p) true = .err ∧ signerOf (.ok (nm "dsa") p) false = .err := by
   constructor <;> simp [signerOf] <;> decide
 
-example : pemRawPass ⟨false, tyRSA, nm "4,ENCRYPTED", true, 0, .structural, false, 0, 0, 0, 0, 0⟩ = .badPass ∧
-    pemRawPass ⟨false, tyDSA, nm "4,ENCRYPTED", true, 0, .structural, false, 0, 0, 0, 0, 0⟩ = .err ∧
-    pemRawPlain ⟨false, tyDSA, [], false, 0, .ok (nm "dsa") [], false, 23, 11, 3, 8, 8⟩ = .ok (nm "dsa") [] ∧
-    pemRawPlain ⟨false, tyDSA, [], false, 0, .ok (nm "dsa") [], false, 23, 11, 3, 9, 8⟩ = .err ∧
-    pemRawPass ⟨false, tyPKCS8, nm "4,ENCRYPTED", true, 0, .ok (nm "rsa") [], false, 0, 0, 0, 0, 0⟩ = .err ∧
-    pemRawPlain ⟨false, tyPKCS8, [], false, 0, .ok (nm "ed25519") [1], false, 0, 0, 0, 0, 0⟩ = .ok (nm "ed25519") [1] ∧
-    pemRawPlain ⟨false, tyRSA, nm "xENCRYPTEDx", false, 0, .err, false, 0, 0, 0, 0, 0⟩ = .needPass := by decide +kernel
+example : pemRawPass ⟨false, tyRSA, nm "4,ENCRYPTED", true, 0, .structural, false, 0, 0, 0, 0, 0, 0, false, 0⟩ = .badPass ∧
+    pemRawPass ⟨false, tyDSA, nm "4,ENCRYPTED", true, 0, .structural, false, 0, 0, 0, 0, 0, 0, false, 0⟩ = .err ∧
+    pemRawPlain ⟨false, tyDSA, [], false, 0, .ok (nm "dsa") [], false, 23, 11, 3, 8, 8, 2, true, 1⟩ = .ok (nm "dsa") [] ∧
+    pemRawPlain ⟨false, tyDSA, [], false, 0, .ok (nm "dsa") [], false, 23, 11, 3, 8, 8, 2, true, 2⟩ = .err ∧
+    pemRawPlain ⟨false, tyDSA, [], false, 0, .ok (nm "dsa") [], false, 23, 10, 3, 8, 8, 2, false, 1⟩ = .err ∧
+    pemRawPlain ⟨false, tyDSA, [], false, 0, .ok (nm "dsa") [], false, 23, 11, 3, 9, 8, 2, true, 1⟩ = .err ∧
+    pemRawPass ⟨false, tyPKCS8, nm "4,ENCRYPTED", true, 0, .ok (nm "rsa") [], false, 0, 0, 0, 0, 0, 0, false, 0⟩ = .err ∧
+    pemRawPlain ⟨false, tyPKCS8, [], false, 0, .ok (nm "ed25519") [1], false, 0, 0, 0, 0, 0, 0, false, 0⟩ = .ok (nm "ed25519") [1] ∧
+    pemRawPlain ⟨false, tyRSA, nm "xENCRYPTEDx", false, 0, .err, false, 0, 0, 0, 0, 0, 0, false, 0⟩ = .needPass := by decide +kernel
 
 end XC.C39
